@@ -403,3 +403,199 @@ Proof.
   intros s k ca cb. rewrite run_final_rs, run_trace_rs. cbn [tr_picks]. intros H.
   apply ktab_eq_of_eq. now apply serial_picks_serial_eq.
 Qed.
+
+(* ================================================================== Part 2: stale reads *)
+(* what one step does, for every instruction *)
+Inductive step_kind (k : ktab) (p : proc) (k' : ktab) (p' : proc) : Prop :=
+| SkNone : pc_calls p' = pc_calls p -> k' = k -> pc_cache p' = pc_cache p -> step_kind k p k' p'
+| SkProbe : pc_calls p' = pc_calls p ++ [KProbe] -> k' = k -> pc_cache p' = k -> step_kind k p k' p'
+| SkMount t : pc_calls p' = pc_calls p ++ [KMount t] -> k' = k ++ [t] -> pc_cache p' = pc_cache p ->
+              mem_path t (pc_cache p) = false -> step_kind k p k' p'
+| SkUmount t ok : pc_calls p' = pc_calls p ++ [KUmount t ok] -> pc_cache p' = pc_cache p ->
+              (if ok then kumount_abs k t = Some k' else k' = k) -> step_kind k p k' p'.
+
+Lemma step_proc_kind fuel : forall k p,
+  step_kind k p (fst (fst (step_proc fuel k p))) (snd (fst (step_proc fuel k p))).
+Proof.
+  induction fuel as [|f IH]; intros k p.
+  - cbn. now apply SkNone.
+  - cbn [step_proc]. destruct p as [code cache failed calls]. cbn [pc_failed pc_code pc_cache pc_calls].
+    destruct failed; [now apply SkNone|].
+    destruct code as [|i r]; [now apply SkNone|].
+    destruct i as [|t rp|bld|t|].
+    + now apply SkProbe.
+    + destruct (mem_path t cache) eqn:M.
+      * specialize (IH k (MkProc r cache false calls)).
+        destruct IH as [H1 H2 H3|H1 H2 H3|t' H1 H2 H3 H4|t' ok H1 H2 H3]; cbn [pc_calls pc_cache] in *.
+        -- now apply SkNone.
+        -- now apply SkProbe.
+        -- now apply (SkMount _ _ _ _ t').
+        -- now apply (SkUmount _ _ _ _ t' ok).
+      * now apply (SkMount _ _ _ _ t).
+    + destruct (rev (Lex.sort (filter (at_or_below bld) cache))) as [|x l] eqn:E.
+      * now apply SkNone.
+      * specialize (IH k (MkProc (map IUmountOne (x :: l) ++ IProbe :: r) cache false calls)).
+        destruct IH as [H1 H2 H3|H1 H2 H3|t' H1 H2 H3 H4|t' ok H1 H2 H3]; cbn [pc_calls pc_cache] in *.
+        -- now apply SkNone.
+        -- now apply SkProbe.
+        -- now apply (SkMount _ _ _ _ t').
+        -- now apply (SkUmount _ _ _ _ t' ok).
+    + destruct (kumount_abs k t) as [k'|] eqn:E.
+      * now apply (SkUmount _ _ _ _ t true).
+      * now apply (SkUmount _ _ _ _ t false).
+    + now apply SkNone.
+Qed.
+Lemma step1_kind k p : step_kind k p (nk k p) (np k p).
+Proof. apply step_proc_kind. Qed.
+
+Definition new_calls (before after_ : proc) : list call :=
+  skipn (length (pc_calls before)) (pc_calls after_).
+Lemma skipn_app_exact {A} (l m : list A) : skipn (length l) (l ++ m) = m.
+Proof. induction l; cbn; auto. Qed.
+Lemma skipn_exact {A} (l : list A) : skipn (length l) l = [].
+Proof. induction l; cbn; auto. Qed.
+
+Lemma landed_new_calls k p p' :
+  landed_on_mounted k p p' = match new_calls p p' with KMount t :: _ => mem_path t k | _ => false end.
+Proof. reflexivity. Qed.
+
+(* the instrumented run: per process the table as it last read it (None: it has not read it
+   yet); every mount that lands on a mounted mountpoint is recorded with who issued it, the
+   target, the table at the time of the call, and the table as the caller last read it *)
+Record stack_event := MkSE { se_first : bool; se_target : bytes; se_table : ktab; se_seen : option ktab }.
+
+Definition upd_seen (k : ktab) (before after_ : proc) (g : option ktab) : option ktab :=
+  match new_calls before after_ with KProbe :: _ => Some k | _ => g end.
+Definition stack_events (who : bool) (k : ktab) (before after_ : proc) (g : option ktab) : list stack_event :=
+  match new_calls before after_ with
+  | KMount t :: _ => if mem_path t k then [MkSE who t k g] else []
+  | _ => []
+  end.
+
+Fixpoint ileave_g (fuel : nat) (s : list bool) (k : ktab) (a b : proc) (ga gb : option ktab) : list stack_event :=
+  match fuel with
+  | O => []
+  | S fuel' =>
+    if finished a && finished b then [] else
+    if pick s a b then
+      stack_events true k a (np k a) ga ++ ileave_g fuel' (stl s) (nk k a) (np k a) b (upd_seen k a (np k a) ga) gb
+    else
+      stack_events false k b (np k b) gb ++ ileave_g fuel' (stl s) (nk k b) a (np k b) ga (upd_seen k b (np k b) gb)
+  end.
+
+(* the instrumentation is faithful: the run flags stacking exactly when an event is recorded *)
+Lemma stack_events_landed who k p p' g :
+  landed_on_mounted k p p' = negb (match stack_events who k p p' g with [] => true | _ => false end).
+Proof.
+  rewrite landed_new_calls. unfold stack_events. destruct (new_calls p p') as [|[|t|t ok] ?]; try reflexivity.
+  now destruct (mem_path t k).
+Qed.
+Lemma ileave_g_st f : forall s k a b ga gb,
+  ir_st (ileave f s k a b) = negb (match ileave_g f s k a b ga gb with [] => true | _ => false end).
+Proof.
+  induction f as [|f IH]; intros s k a b ga gb; [reflexivity|].
+  cbn [ileave ileave_g]. destruct (finished a && finished b); [reflexivity|].
+  destruct (pick s a b); cbn [ir_st].
+  - rewrite (IH _ _ _ _ (upd_seen k a (np k a) ga) gb), (stack_events_landed true k a (np k a) ga).
+    destruct (stack_events true k a (np k a) ga); reflexivity.
+  - rewrite (IH _ _ _ _ ga (upd_seen k b (np k b) gb)), (stack_events_landed false k b (np k b) gb).
+    destruct (stack_events false k b (np k b) gb); reflexivity.
+Qed.
+
+(* the ghost is the cache *)
+Definition seen_ok (g : option ktab) (p : proc) : Prop := forall kr, g = Some kr -> pc_cache p = kr.
+
+Lemma upd_seen_ok k p g : seen_ok g p -> seen_ok (upd_seen k p (np k p) g) (np k p).
+Proof.
+  intros H. unfold upd_seen, new_calls.
+  destruct (step1_kind k p) as [H1 H2 H3|H1 H2 H3|t H1 H2 H3 H4|t ok H1 H2 H3]; rewrite H1.
+  - rewrite skipn_exact. intros kr E. rewrite H3. now apply H.
+  - rewrite skipn_app_exact. intros kr E. injection E as <-. exact H3.
+  - rewrite skipn_app_exact. intros kr E. rewrite H3. now apply H.
+  - rewrite skipn_app_exact. intros kr E. rewrite H2. now apply H.
+Qed.
+
+Definition stale_event (e : stack_event) : Prop :=
+  mem_path (se_target e) (se_table e) = true /\
+  forall kr, se_seen e = Some kr -> mem_path (se_target e) kr = false.
+
+Lemma stack_events_stale who k p g : seen_ok g p ->
+  forall e, In e (stack_events who k p (np k p) g) -> stale_event e.
+Proof.
+  intros H e. unfold stack_events, new_calls.
+  destruct (step1_kind k p) as [H1 H2 H3|H1 H2 H3|t H1 H2 H3 H4|t ok H1 H2 H3]; rewrite H1;
+    rewrite ?skipn_exact, ?skipn_app_exact; try contradiction.
+  destruct (mem_path t k) eqn:M; [|contradiction].
+  intros [<-|[]]. split; [exact M|]. cbn [se_target se_seen]. intros kr E.
+  now rewrite <- (H kr E).
+Qed.
+
+Lemma ileave_g_stale f : forall s k a b ga gb, seen_ok ga a -> seen_ok gb b ->
+  forall e, In e (ileave_g f s k a b ga gb) -> stale_event e.
+Proof.
+  induction f as [|f IH]; intros s k a b ga gb Ha Hb e; [contradiction|].
+  cbn [ileave_g]. destruct (finished a && finished b); [contradiction|].
+  destruct (pick s a b); intros Hin; apply in_app_or in Hin as [Hin|Hin].
+  - exact (stack_events_stale true k a ga Ha e Hin).
+  - eapply IH; [| |exact Hin]; [now apply upd_seen_ok|exact Hb].
+  - exact (stack_events_stale false k b gb Hb e Hin).
+  - eapply IH; [| |exact Hin]; [exact Ha|now apply upd_seen_ok].
+Qed.
+
+(* the events of a whole run *)
+Definition run_events (s : list bool) (k : ktab) (ca cb : list instr) : list stack_event :=
+  ileave_g (rs_fuel k ca cb) s k (start ca) (start cb) None None.
+
+Lemma run_events_stacked s k ca cb :
+  tr_stacked (run_trace (run_sched s k ca cb)) = negb (match run_events s k ca cb with [] => true | _ => false end).
+Proof. rewrite run_trace_rs. cbn [tr_stacked]. apply ileave_g_st. Qed.
+
+Theorem stack_only_if_stale : forall s k ca cb e, In e (run_events s k ca cb) -> stale_event e.
+Proof. intros s k ca cb. apply ileave_g_stale; intros kr E; discriminate. Qed.
+
+(* a process whose code starts with a probe has read the table before it mounts anything *)
+Definition has_read (g : option ktab) (p : proc) (c0 : list instr) : Prop :=
+  g = None -> pc_failed p = false /\ pc_code p = IProbe :: c0.
+
+Lemma upd_seen_has_read k p g c0 : has_read g p c0 -> has_read (upd_seen k p (np k p) g) (np k p) c0.
+Proof.
+  intros H. destruct g as [kr|].
+  - intros E. exfalso. unfold upd_seen in E. destruct (new_calls p (np k p)) as [|[|?|? ?] ?]; discriminate.
+  - destruct (H eq_refl) as [F C]. unfold has_read, upd_seen, new_calls, np, step1, code_fuel.
+    destruct p as [code cache failed calls]. cbn [pc_failed pc_code pc_calls pc_cache] in *. subst.
+    cbn [step_proc length Nat.add pc_failed pc_code pc_calls pc_cache fst snd].
+    rewrite skipn_app_exact. discriminate.
+Qed.
+Lemma stack_events_has_read who k p g c0 : has_read g p c0 ->
+  forall e, In e (stack_events who k p (np k p) g) -> se_seen e <> None.
+Proof.
+  intros H e. destruct g as [kr|].
+  - unfold stack_events. destruct (new_calls p (np k p)) as [|[|t|? ?] ?]; try contradiction.
+    destruct (mem_path t k); [|contradiction]. intros [<-|[]]. discriminate.
+  - destruct (H eq_refl) as [F C]. unfold stack_events, new_calls, np, step1, code_fuel.
+    destruct p as [code cache failed calls]. cbn [pc_failed pc_code pc_calls pc_cache] in *. subst.
+    cbn [step_proc length Nat.add pc_failed pc_code pc_calls pc_cache fst snd].
+    rewrite skipn_app_exact. contradiction.
+Qed.
+Lemma ileave_g_has_read f ca0 cb0 : forall s k a b ga gb, has_read ga a ca0 -> has_read gb b cb0 ->
+  forall e, In e (ileave_g f s k a b ga gb) -> se_seen e <> None.
+Proof.
+  induction f as [|f IH]; intros s k a b ga gb Ha Hb e; [contradiction|].
+  cbn [ileave_g]. destruct (finished a && finished b); [contradiction|].
+  destruct (pick s a b); intros Hin; apply in_app_or in Hin as [Hin|Hin].
+  - exact (stack_events_has_read true k a ga ca0 Ha e Hin).
+  - eapply IH; [| |exact Hin]; [now apply upd_seen_has_read|exact Hb].
+  - exact (stack_events_has_read false k b gb cb0 Hb e Hin).
+  - eapply IH; [| |exact Hin]; [exact Ha|now apply upd_seen_has_read].
+Qed.
+
+Theorem stack_only_if_stale_read : forall s k ca cb e,
+  In e (run_events s k (IProbe :: ca) (IProbe :: cb)) ->
+  exists kr, se_seen e = Some kr /\ mem_path (se_target e) kr = false /\ mem_path (se_target e) (se_table e) = true.
+Proof.
+  intros s k ca cb e Hin.
+  pose proof (stack_only_if_stale _ _ _ _ _ Hin) as [H1 H2].
+  assert (H3 : se_seen e <> None).
+  { revert Hin. apply (ileave_g_has_read _ ca cb); intros _; split; reflexivity. }
+  destruct (se_seen e) as [kr|]; [|congruence]. exists kr. auto.
+Qed.
